@@ -290,6 +290,13 @@ def _r20d(ctx, u, init):
         ctx.unknown('R20d', u, init, 'line-start table is neither list(<generator>(s)) nor a list filled in __init__',
                     construct='line-start table')
         return
+    sl = [c_ for st_ in body_stmts for c_ in ast.walk(st_) if isinstance(c_, ast.Call) and call_name(c_) == 'splitlines']
+    if sl:
+        ctx.refuted('R20d', u, sl[0], 'the line starts are derived from %s: str.splitlines() also ends a line at '
+                    '\\r, \\v, \\f, \\x1c-\\x1e, \\x85, \\u2028 and \\u2029, while a line of the calculator ends at '
+                    '\\n only -- a position after a lone carriage return is reported on the next line at column 0'
+                    % short(sl[0], 40), construct='line-start generator: loop')
+        return
     loops = [l for l in body_stmts if isinstance(l, ast.While)]
     if len(loops) != 1:
         ctx.unknown('R20d', u, g, 'the table is not filled by one while loop', construct='line-start generator')
